@@ -53,6 +53,7 @@ type behaviour struct {
 		Trigger string  `json:"trigger"`
 		Seg     int     `json:"seg"`
 		Addrs   int     `json:"addrs"`
+		Depth   int     `json:"depth"` // the subscriber's AdsDepthLimit (0: none)
 		Faults  []fault `json:"faults"`
 	} `json:"cfg"`
 	Syncs []msync `json:"syncs"`
@@ -136,6 +137,9 @@ func replay(b *behaviour, e *env, variant int) (key, detail string, at int, obs 
 	opts := []dagsync.Option{dagsync.BlockHook(hook), dagsync.SegmentDepthLimit(seg), dagsync.HttpTimeout(400 * time.Millisecond)}
 	if b.Cfg.Trigger == "announce" {
 		opts = append(opts, dagsync.RecvAnnounce(""))
+	}
+	if b.Cfg.Depth > 0 {
+		opts = append(opts, dagsync.AdsDepthLimit(int64(b.Cfg.Depth)))
 	}
 	sub, err := dagsync.NewSubscriber(nil, dst.LinkSystem(), opts...)
 	if err != nil {
